@@ -99,7 +99,7 @@ crate::harnesses! {
     /// lossy only matters where the exact call gives up: compute_float::<f64>(q, w, true) == compute_float(q, w, false)
     /// whenever the latter is not error-marked (all q, w).
     /// @prop C19 C01
-    /// @tier thorough
+    /// @tier deep
     /// @feat default radix_format
     /// @fn lexical-parse-float::lemire::compute_float[f64]
     /// @timeout 3000
@@ -114,7 +114,7 @@ crate::harnesses! {
 
     /// same for f32.
     /// @prop C19 C01
-    /// @tier thorough
+    /// @tier deep
     /// @feat default radix_format
     /// @fn lexical-parse-float::lemire::compute_float[f32]
     /// @timeout 3000
